@@ -10,7 +10,9 @@ PROP = {
   'returns every key that is present during the whole iteration (encoded as the guard of the model step scanFinish)',
   'barrier contract of C11: blocking_done is observed only when no command of the source proxy is in flight at the '
   'source Redis, and none reaches it until the handle is dropped (encoded as the guard of blockingDone / route)',
-  'max_blocking_time / max_migration_time do not fire, no connection errors, no key expiry during the migration',
+  'max_blocking_time / max_migration_time do not fire, no key expiry during the migration; connection errors are '
+  'covered only for the Redis clients of the migrating task (scan loop, UMSYNC fast/slow path: labels syncFault / '
+  'scanFault, harness fault plan); backend connections of the proxies never fail in the harness',
   'the coordinator commits only after both proxies report SwitchCommitted',
   'TRUSTED table canDeleteNames (Redis documentation): which supported commands can remove their first key'],
  'gaps': [
@@ -23,6 +25,9 @@ PROP = {
   'classification_sound / model_classification since fix ddfb301',
   'per-key model: cross-key effects enter only as spurious SlotMutex contention and lock-step scan batches',
   'liveness (every op eventually answers, the scan terminates) is not stated',
+  'at-least-once RESTORE: a scan batch whose RESTORE pipeline is reset after some of its RESTOREs ran re-sends all of '
+  'them (answered BUSYKEY); this re-send is neither modelled nor injected (the fault plan resets a RESTORE only as '
+  'first command of its pipeline)',
   'thorough tier: random + adversarial gate schedules; the exhaustive DFS for 1 key / 3 ops planned in DESIGN was not built',
  ],
  'trusted': [
@@ -37,7 +42,8 @@ CHECK = {
               'runs of two real proxies + register-linearizability oracle on the implementation',
  'text': 'partial: proved for the full per-key model (pull path, UMSYNC fast and slow path, scan batches, handshake, '
          'commit, both redirect modes, unordered in-flight commands = every backend_conn_num, unboundedly many '
-         'concurrent client ops) that every step refines an atomic register (linearization point = execution of the '
+         'concurrent client ops, UMSYNC answered with an error after a Redis connection of the migrating task failed) that '
+         'every step refines an atomic register (linearization point = execution of the '
          'client command; nothing else changes dst<|>src) and that at quiescence after both commits the source is '
          'empty and the destination holds the register content - UNDER one hypothesis that excludes exactly the '
          'remaining defect F03b (a DEL acknowledged after the destination commit is overtaken by the RESTORE of a pull '
@@ -47,7 +53,9 @@ CHECK = {
          'ddfb301 of F03a (the *STORE family), which removed the second hypothesis; corpus/C03/migration.f03a.ops is '
          'the regression case. The model is tied to the code by trace inclusion: every backend command, '
          'proxy-to-proxy command, client reply and task-state change of gate-scheduled runs of two real '
-         'SharedForwardHandlers must be a step of the model (tau-closed state sets per key).',
+         'SharedForwardHandlers must be a step of the model (tau-closed state sets per key). A failed push never lets the '
+         'command through (C03_failed_push_not_executed); the harness injects connection resets into the UMSYNC '
+         'PTTL/DUMP pipeline, its RESTORE and DEL, and lets the client retry.',
  'note': 'Trusted: Lean kernel; model transliteration (checked by trace inclusion every run); Redis semantics of '
          'the fake node; canDeleteNames table; C11 barrier contract; SCAN guarantee.',
 }
